@@ -74,7 +74,7 @@ func TestC13(t *testing.T) {
 		failedStartUps(r)
 		crashPart(t, r, tmp)
 	}
-	r.Require("polls_with_one_secret_failing", "restarts_on_a_retaining_cache", "payloads_checked", "restarts_from_payload", "fileclient_checks", "flush_after_lookup", "flush_after_poll", "flush_on_shutdown",
+	r.Require("histories_with_hostile_names", "polls_with_one_secret_failing", "restarts_on_a_retaining_cache", "payloads_checked", "restarts_from_payload", "fileclient_checks", "flush_after_lookup", "flush_after_poll", "flush_on_shutdown",
 		"fuzz_certainly_valid", "fuzz_certainly_invalid", "fuzz_grey", "cache_write_failures", "parked_write_cases", "crash_points", "io_errors_injected", "steps_with_stale_pinned_secrets", "restarts_from_real_cache_files", "retaining_cache_checks", "failed_start_ups", "failed_initial_cache_writes", "start_ups_with_unreadable_cache", "writes_after_a_killed_write", "quiet_polls_after_a_failed_cache_write")
 	r.Rule("histories: initial fetch, lookups, polls with/without service changes (some with failing cache writes), shutdown; after every step the last payload must be a complete document of exactly the known names with their current version+bytes, a new store started from it with a dead service must serve the same, and NewFileClient must agree on non-empty secrets. Fuzz: documents mutated around the valid format (bit flips, truncations, token splices, nulls, wrong types, duplicate/empty keys, case variants, nesting, invalid UTF-8). Crash part: every system call of FileCache.Write as kill point and as error point. Distinct = (step kind, flush expected?), fuzz (mutation, class, sources used), crash (syscall, fault)")
 }
@@ -110,6 +110,12 @@ func historyCase(t *testing.T, r *evid.Run, idx int, tmp string) {
 	svc := fakesvc.New()
 	installed := map[string][]byte{} // what the store has installed, as far as the history implies
 	all := []string{"svc/a", "svc/b", "x/one", "x/two", "x/empty"}
+	if idx%4 == 1 {
+		// names are whatever a program asks for: control characters, DEL, quotes and backslashes, characters
+		// outside the BMP and non-printable ones (a tag character) - all of them legal JSON object keys once escaped
+		all = []string{"svc/a", "svc/b\a\x01", "x/del\x7f\v", "x/tag\U000e0001x", "x/empty", "x/quote\"back\\slash\u2028"}
+		r.Count("histories_with_hostile_names", 1)
+	}
 	ver := map[string]uint32{}
 	set := func(nme string) {
 		ver[nme]++
